@@ -401,9 +401,11 @@ def make_replay(pid, v, krun):
             for t in tests:
                 if t['desc'] in v.get('descs', []):
                     wanted.append(t)
-            if not wanted and v['clause'] != 'no_panic':
-                wanted = [t for t in tests if t['class'] != 'cover' and not K.IGNORED_DESC.match(t['desc'])][:1]
-            wanted = wanted[:2]
+            if not wanted:
+                # Kani emits one test per distinct input: the failing check may share its input with a
+                # cover point or another check; the native replay decides which inputs really fail
+                wanted = [t for t in tests if not K.IGNORED_DESC.match(t['desc'])]
+            wanted = wanted[:3]
         if wanted:
             rec['counterexample'] = [{'test': t['fn'], 'for_check': t['desc'], 'values_in_harness_order': t['values'], 'code': t['code']} for t in wanted]
             # native replay: same harness fn, real code, concrete values
@@ -420,6 +422,7 @@ def make_replay(pid, v, krun):
                 rec['note'] = 'the verifier\'s counterexample did not fail when replayed natively (stub/contract-level failure); reported with no-failing-input-found'
         else:
             rec['note'] = 'verifier produced no concrete playback for this check'
+            rec['playback_run_tail'] = (r.get('out') or '')[-1500:] if isinstance(r, dict) else ''
     except Exception as e:
         rec['note'] = f'playback failed: {e}'
     rec['replay_cmd'] = f'python3 {VERIF}/vx/check.py --replay {path}'
